@@ -129,6 +129,7 @@ def hash_perm(eng, obj, items):
     mode = getattr(eng, "hash_order", "insertion")
     if mode == "insertion" or len(items) < 2: return list(items)
     if mode == "reversed": return list(reversed(items))
+    if len(items) > 3: return list(reversed(items))        # arbitrary permutations are forked for <= 3 entries only (stated bound)
     key = tuple(id(x) for x in items)
     cache = getattr(obj, "_perm", None)
     if cache is not None and cache[0] == key: return [items[i] for i in cache[1]]
